@@ -58,7 +58,7 @@ fn main() {
     let tier = args[3].as_str();
     let f = std::fs::File::create(&args[4]).expect("create outfile");
     let mut w = BufWriter::new(f);
-    let n = match prop {
+    let n = match std::panic::catch_unwind(std::panic::AssertUnwindSafe(|| match prop {
         "c14" => c14::run(seed, tier, &mut w),
         "c01" => c01::run(seed, tier, &mut w),
         "c02" => c02::run(seed, tier, &mut w),
@@ -83,6 +83,14 @@ fn main() {
         _ => {
             eprintln!("unknown property {}", prop);
             std::process::exit(2);
+        }
+    })) {
+        Ok(n) => n,
+        Err(_) => {
+            // a panic that no case caught: say where (the hook keeps expected panics quiet)
+            let (loc, msg) = rng::LAST_PANIC.lock().unwrap().clone();
+            eprintln!("harness panicked outside a case: {loc}: {msg}");
+            std::process::exit(101);
         }
     };
     w.flush().unwrap();
